@@ -10,6 +10,7 @@ import XV.Model.Decode
 import XV.Spec.Dis
 import XV.Spec.OpTables
 import XV.Props.C04.Labels
+import XV.Props.C04.Labels311
 namespace XV.Props.C04
 open XV XV.Model XV.Model.Decode
 
@@ -251,5 +252,66 @@ theorem C04_labels (t : OpTable) (ht : t ∈ Gen.allTables) (d : Spec.Dis.DisTbl
     have := hform op hop
     simp only [labelForm, hw, Bool.false_eq_true, if_false, hcross, if_true, Option.some.injEq] at this
     rw [tgtPre_form, target_form, this]
+
+/-! ### the unbounded label theorem on the real tables with inline caches (3.11, 3.12, 3.13) -/
+
+def labelFacts311 (t : OpTable) (d : Spec.Dis.DisTbl) : Bool :=
+  ((List.range 256).all fun op =>
+    (!(C02.isDefined d op) ||
+      (t.hasArg op == (if verGe d.version 3 12 then (d.hasarg.getD []).contains op else decide (op ≥ d.haveArgument)))) &&
+    ((t.extendedArg == some op) == (d.extendedArg == some op)) &&
+    (isExtName t op == (d.extendedArg == some op)) &&
+    (!(t.extendedArg == some op) || Nat.beq (t.extShift.getD 0) 8) &&
+    (labelForm t op == some (targetForm d op))) &&
+  verGe d.version 3 11 && py36 t && !(t.hasArg 0) && !(verLt t.version 3 10) && (t.findlabels == wordFindlabels)
+
+def labelFacts311Ok (t : OpTable) : Bool :=
+  match disTblFor t with
+  | none => false
+  | some d => !(verGe d.version 3 11) || labelFacts311 t d
+
+theorem C04_label_tables_311_all : Gen.allTables.all labelFacts311Ok = true := by decide +kernel
+
+/-- C04_labels_311_all: on the 3.11, 3.12 and 3.13 tables xdis ships, for every byte string of any
+    length laid out with its inline cache slots and with no prefix pending at an operand-less opcode,
+    the label list `opc.findlabels` returns is `dis.findlabels` of that CPython (backward jumps,
+    the jump's own cache entries in 3.12/3.13 included) -/
+theorem C04_labels_311_all (t : OpTable) (ht : t ∈ Gen.allTables) (d : Spec.Dis.DisTbl) (hd : disTblFor t = some d)
+    (h11 : verGe d.version 3 11 = true) (code : Bytes) (hbytes : C02.IsBytes code)
+    (hck : C02.CacheOk t d code) (hcarry : C02.CarryOk t code) :
+    (Decode.findlabels t Gen.cacheSize313 code).map Except.toOption = some (Spec.Dis.findlabels d code) := by
+  have h := List.all_eq_true.mp C04_label_tables_311_all t ht
+  simp only [labelFacts311Ok, hd, h11, Bool.not_true, Bool.false_or] at h
+  simp only [labelFacts311, Bool.and_eq_true, List.all_eq_true, List.mem_range, Bool.or_eq_true,
+    Bool.not_eq_true', beq_iff_eq] at h
+  obtain ⟨⟨⟨⟨⟨hall, hge⟩, h36⟩, h0⟩, hver⟩, hw⟩ := h
+  have lk : LabelOk311 t d := by
+    refine ⟨?_, fun op hop => (hall op hop).1.1.1.2, fun op hop => (hall op hop).1.1.2, ?_, h36, hge, h0⟩
+    · intro op hop hdef
+      rcases (hall op hop).1.1.1.1 with h | h
+      · rw [hdef] at h; cases h
+      · exact h
+    · intro op hop hx
+      rcases (hall op hop).1.2 with h | h
+      · rw [hx] at h; cases h
+      · exact Nat.eq_of_beq_eq_true h
+  have hform : ∀ op, op < 256 → labelForm t op = some (targetForm d op) := fun op hop => (hall op hop).2
+  have hw' : (t.findlabels == wordFindlabels) = true := by rw [hw]; exact beq_self_eq_true _
+  unfold Decode.findlabels
+  simp only [hw', if_true, Option.map_some]
+  congr 1
+  apply C04_labels_311 t Gen.cacheSize313 d code lk hbytes hver hck hcarry
+  intro off op a hop
+  have := hform op hop
+  simp only [labelForm, hw', if_true, Option.some.injEq] at this
+  rw [tgtWord_form, target_form, this]
+
+/-- non-vacuity on real 3.12 code: `for x in a: g(x)` compiled by CPython 3.12.1 (FOR_ITER with its
+    cache entry, JUMP_BACKWARD) meets both layout hypotheses -/
+def loop312 : Bytes := [151, 0, 124, 0, 68, 0, 93, 10, 0, 0, 125, 2, 2, 0, 124, 1, 124, 2, 171, 1, 0, 0, 0, 0, 0, 0, 1, 0, 140, 12, 4, 0, 121, 0]
+
+example : (match disTblFor Gen.opcode_312 with
+    | some d => C02.cacheOk Gen.opcode_312 d loop312 (loop312.length + 1) 0 0 0 | none => false) = true ∧
+    C02.carryOk Gen.opcode_312 loop312 (loop312.length + 1) 0 0 = true := by decide +kernel
 
 end XV.Props.C04
